@@ -84,9 +84,13 @@ def parse_qs(line):
     return out
 
 
+def status_code(st):
+    return 0 if st == "kOptimal" else 1 if st == "kInfeasible" else 2
+
+
 def mgsloop_request(lowerbound, n_initial, statuses):
-    """statuses: {k: bool optimal}"""
-    return "mgsloop " + common.toks([lowerbound, n_initial, len(statuses), [[k, bool(b)] for k, b in sorted(statuses.items())]])
+    """statuses: {k: status string as get_model_status() reported it}"""
+    return "mgsloop " + common.toks([lowerbound, n_initial, len(statuses), [[k, status_code(b)] for k, b in sorted(statuses.items())]])
 
 
 def parse_loop(line):
